@@ -102,7 +102,9 @@ def run(ctx):
               "(triplets), LSML (quadruplets); integer points in [-8,8]; ties forced: identical points, equal distances, "
               "threshold exactly on a distance and one ulp below/above, thresholds from set_threshold and "
               "calibrate_threshold; all outputs compared exactly (floats bit-exact, predictions as integers) with the "
-              "translated definitions on binary64; ROC-AUC vs Mann-Whitney count on exact rational squared distances. "
+              "translated definitions on binary64; ROC-AUC vs Mann-Whitney count on exact rational squared distances; "
+              "representation lane: the same tuples as list / int64 / int8 / Fortran / strided / transposed view / indices of a "
+              "float64 or int16 preprocessor give identical decisions. "
               "non-trivial = L != 0 and at least two distinct distances; distinct = distinct (L, tuples, threshold).")
   ctx.trusted = ["Coq 8.16.1 kernel + vm_compute", "translator tools/translate_query.py + idiom table coq/Base/NP.v",
                  "oracle: sklearn.metrics.roc_auc_score (validated against the Mann-Whitney count each run)",
@@ -236,6 +238,52 @@ def run(ctx):
   for rec in recs:
     if falsify(rec):
       break
+  representation_lane(ctx, recs[:(400 if thorough else 90)])
+
+
+def representation_lane(ctx, recs):
+  """the same tuples as list / int64 / Fortran-ordered / strided arrays, and as indices of a preprocessor, must give
+  the same decisions (all numbers are small integers: every variant is exact)"""
+  from metric_learn._util import ArrayIndexer
+  for rec in recs:
+    est = host(rec['estimator'], max(rec['L'].shape[1], 2))
+    est.components_ = rec['L']
+    T = rec['T']
+    if rec['kind'] == 'pairs':
+      est.set_threshold(rec['thr'])
+    n, m, d = T.shape
+    big = np.zeros((2 * n, m, 2 * d))
+    big[::2, :, ::2] = T
+    pool, inv = np.unique(T.reshape(-1, d), axis=0, return_inverse=True)
+    idx = np.asarray(inv).reshape(n, m)
+    variants = [('list', T.tolist(), None), ('int64', T.astype(np.int64), None), ('int8', T.astype(np.int8), None),
+                ('fortran', np.asfortranarray(T), None), ('strided', big[::2, :, ::2], None),
+                ('transposed view', np.ascontiguousarray(T.transpose(2, 1, 0)).transpose(2, 1, 0), None),
+                ('indices + float64 preprocessor', idx, pool), ('indices + int16 preprocessor', idx.astype(np.int32), pool.astype(np.int16))]
+    extra = (rec['y'],) if rec['kind'] == 'pairs' else ()
+    with warnings.catch_warnings():
+      warnings.simplefilter('ignore')
+      ref = (est.decision_function(T), est.predict(T), est.score(T, *extra))
+    for nm, Tv, pre in variants:
+      ctx.count('representation', 1)
+      ctx.hist('representation', nm)
+      try:
+        est.preprocessor_ = None if pre is None else ArrayIndexer(pre)
+        with warnings.catch_warnings():
+          warnings.simplefilter('ignore')
+          got = (est.decision_function(Tv), est.predict(Tv), est.score(Tv, *extra))
+      except Exception as ex:
+        ctx.fail_input('representation', '%s given as %s raise %s' % (rec['kind'], nm, type(ex).__name__),
+                       dict(kind=rec['kind'], estimator=rec['estimator'], L=rec['L'].tolist(), tuples=T.tolist(), representation=nm),
+                       observed=str(ex)[:200])
+        continue
+      finally:
+        est.preprocessor_ = None
+      if not (np.array_equal(got[0], ref[0]) and np.array_equal(got[1], ref[1]) and got[2] == ref[2]):
+        ctx.fail_input('representation', '%s given as %s are classified differently' % (rec['kind'], nm),
+                       dict(kind=rec['kind'], estimator=rec['estimator'], L=rec['L'].tolist(), tuples=T.tolist(), representation=nm,
+                            threshold=rec.get('thr')),
+                       observed=[np.asarray(g).tolist() for g in got], expected=[np.asarray(g).tolist() for g in ref])
 
 
 def replay(payload):
